@@ -10,8 +10,31 @@
  *   pstr <bits16>        number_to_string_b (string, describe) on any finite double -> "<text> <text>"
  *   s64rt <dec> / u64rt <dec>   tostring of a boxed int, then scan back        -> "<text> ok <dec>" | "<text> err"
  *   big <base> <ex> <hex>   internal state after the scaling loops of convert() -> "n first d0 d1 ..." (digit array dump)
+ *   st <base> <hex>         scanner plumbing state: what janet_scan_number_base hands to convert()
+ *                           -> "ok <neg> <base> <ex> <n> <first> d0 d1 ..." | "err"   (captured at the log2(base) call,
+ *                           the first statement of convert() that reads its arguments, before any scaling)
+ *   bigz <nzeros> <headhex> <tailhex>   janet_scan_number on head + '0'*nzeros + tail (multi-megabyte literals) -> as num
  */
+#include <math.h>
+#include <stdint.h>
+#include <stdlib.h>
+#include <string.h>
+struct BigNat;
+static double c13_log2_spy(double x, struct BigNat *m, int32_t exponent, int negative);
+#define log2(x) c13_log2_spy((x), mant, exponent, negative)
 #include "strtod.c"
+#undef log2
+static int c13_neg, c13_seen;
+static int32_t c13_base, c13_ex, c13_n;
+static uint32_t c13_first;
+static uint32_t *c13_digits;
+static double c13_log2_spy(double x, struct BigNat *m, int32_t exponent, int negative) {
+    c13_seen = 1; c13_neg = negative; c13_base = (int32_t) x; c13_ex = exponent; c13_n = m->n; c13_first = m->first_digit;
+    free(c13_digits);
+    c13_digits = malloc(sizeof(uint32_t) * (m->n ? m->n : 1));
+    if (m->n) memcpy(c13_digits, m->digits, sizeof(uint32_t) * m->n);
+    return log2(x);
+}
 #ifndef C13_SHAMT_BASE
 #define C13_SHAMT_BASE 5
 #define C13_SHAMT_DIV 4
@@ -61,6 +84,34 @@ int main(void) {
             int rc = base == 0 ? janet_scan_number(b, len, &d) : janet_scan_number_base(b, len, (int32_t) base, &d);
             if (rc) printf("err\n"); else printf("ok %016" PRIx64 "\n", bits_of(d));
             free(b);
+        } else if (!strncmp(line, "st ", 3)) {
+            char *p = line + 3;
+            long base = strtol(p, &p, 10);
+            while (*p == ' ') p++;
+            int32_t len; uint8_t *b = unhex(p, &len);
+            double d = 0;
+            c13_seen = 0;
+            int rc = janet_scan_number_base(b, len, (int32_t) base, &d);
+            if (rc || !c13_seen) printf("err\n");
+            else {
+                printf("ok %d %d %d %d %u", c13_neg ? 1 : 0, c13_base, c13_ex, c13_n, c13_first);
+                for (int32_t i = 0; i < c13_n; i++) printf(" %u", c13_digits[i]);
+                printf("\n");
+            }
+            free(b);
+        } else if (!strncmp(line, "bigz ", 5)) {
+            char *p = line + 5;
+            long nz = strtol(p, &p, 10);
+            while (*p == ' ') p++;
+            char *sp = strchr(p, ' ');
+            if (sp) *sp = 0;
+            int32_t hl, tl; uint8_t *hd = unhex(p, &hl); uint8_t *tlb = unhex(sp ? sp + 1 : "", &tl);
+            uint8_t *b = malloc((size_t) hl + nz + tl + 1);
+            memcpy(b, hd, hl); memset(b + hl, '0', nz); memcpy(b + hl + nz, tlb, tl);
+            double d = 0;
+            int rc = janet_scan_number(b, (int32_t)(hl + nz + tl), &d);
+            if (rc) printf("err\n"); else printf("ok %016" PRIx64 "\n", bits_of(d));
+            free(b); free(hd); free(tlb);
         } else if (!strncmp(line, "i64 ", 4) || !strcmp(line, "i64")) {
             int32_t len; uint8_t *b = unhex(line + 3 + (line[3] == ' '), &len);
             int64_t v = 0;
